@@ -184,6 +184,36 @@ def job_end_to_end(names):
     return acc
 
 
+@worker
+def job_shared(pairs):
+    """Keyword spellings that belong to different categories in two dialects: dialect d1 first, then d2, in one process."""
+    acc = Acc()
+    text = None
+    for (k, d1, d2) in pairs:
+        for d in (d1, d2):
+            F, S = first_kw(d, 'feature'), first_kw(d, 'scenario')
+            for via in ('default', 'header'):
+                body = '%s: f\n%s: s\n%sx y\n' % (F, S, k)
+                text = body if via == 'default' else '# language: %s\n' % d + body
+                case = {'kind': 'text', 'text': text, 'default': d if via == 'default' else 'en'}
+                a = ast_equal(text, acc, case, default=case['default'], sig='shared-spelling')
+                if a and a[0] == 'ok':
+                    acc.nontrivial += 1
+            tm = TokenMatcher(d)
+            line = k + 'x'
+            t = Token(GherkinLine(line, 1), {'line': 1})
+            got = tm.match_StepLine(t)
+            rt = R.Tok(1, line)
+            exp = R.RefLexer(d).match('StepLine', rt)
+            acc.n += 1
+            if bool(got) != bool(exp) or (got and fields(t) != ('StepLine', rt.keyword, rt.text, rt.ktype, rt.column, d)):
+                acc.violation('keyword-fields', {'kind': 'matcher-line', 'dialect': d, 'entry': 'StepLine', 'line': line},
+                              'keyword %r in dialect %s after dialect %s was used in the same process: token fields differ from the reference lexer' % (k, d, d1),
+                              observed=fields(t), expected=(rt.keyword, rt.text, rt.ktype))
+    acc.sample({'text': text})
+    return acc
+
+
 HSYM = ['#', ' ', '\t', 'language', 'Language', ':', 'fr', 'xx', '-', '_', '1', 'a']
 FOLLOW = ['Feature: f\n  Scenario: s\n', 'Fonctionnalité: f\n  Scénario: s\n']
 
@@ -275,6 +305,9 @@ def run(ctx):
         ctx.acc.violation('language-table', {'kind': 'files'}, 'loaded DIALECTS differ from the master table')
     ctx.level('line level: dialects x keywords x entry points', [job_lines.job(names[i:i + 2]) for i in range(0, len(names), 2)])
     ctx.level('end to end: own and foreign keywords', [job_end_to_end.job(names[i:i + 2]) for i in range(0, len(names), 2)])
+    from .c10 import shared_spellings
+    sp = shared_spellings()
+    ctx.level('dialect pairs sharing a keyword spelling (%d)' % len(sp), [job_shared.job(sp[i:i + 40]) for i in range(0, len(sp), 40)])
     n = ctx.pick(4, 5)
     ctx.level('header strings <= %d symbols' % n, [job_headers.job(i, n) for i in range(len(HSYM))])
     ctx.level('header position: prefixes <= 4 lines', [job_positions.job(i) for i in range(len(PLINES))] )
